@@ -73,6 +73,46 @@ func main() {
 	if s := os.Getenv("VERIF_SEED"); s != "" {
 		seed, _ = strconv.Atoi(s)
 	}
+	if *prop == "all" || strings.Contains(*prop, ",") {
+		// developer mode: one load, several properties (used by the refactor and seed harnesses)
+		var ids []string
+		if *prop == "all" {
+			for id := range registry {
+				ids = append(ids, id)
+			}
+		} else {
+			ids = strings.Split(*prop, ",")
+		}
+		sort.Strings(ids)
+		P, err := load(*repo, *cgm, nil)
+		if err != nil {
+			fmt.Printf("ERROR: cannot load %s: %v\n", *repo, err)
+			os.Exit(1)
+		}
+		verifDirFlag = *verif
+		worst := 0
+		for _, id := range ids {
+			sp := registry[id]
+			if sp == nil {
+				fmt.Printf("ERROR: unknown property %q\n", id)
+				os.Exit(2)
+			}
+			st := time.Now()
+			c := newCtx(P, id, "quick")
+			c.Only = *only
+			if err := c.loadKnown(*verif + "/known_findings.json"); err != nil {
+				fmt.Printf("ERROR: known_findings.json: %v\n", err)
+				os.Exit(2)
+			}
+			for _, r := range sp.Rules {
+				runRule(c, r)
+			}
+			if code := c.finish(*verif, st, seed, sp, map[string]interface{}{}); code > worst {
+				worst = code
+			}
+		}
+		os.Exit(worst)
+	}
 	spec := registry[*prop]
 	if spec == nil {
 		fmt.Printf("ERROR: unknown property %q\n", *prop)
